@@ -124,14 +124,20 @@ def match(v, t, ctx):
             break
         return False
     if k == "py":
+        if isinstance(v, ExtVal) and last(v.name) in ("Value", "literal") and len(v.args) == 1 and not v.kwargs:
+            v = v.args[0]           # a constant wrapped as a bound value means the same
         if isinstance(v, (ExtVal, ExtRef, Sym, SStr, SBool, SInt)):
             return False
         return type(v) is type(t[1]) and v == t[1]
     if k == "extref":
         return isinstance(v, ExtRef) and last(v.qualname) == t[1]
     if k == "ext":
-        return isinstance(v, ExtVal) and last(v.name) == t[1] and not v.kwargs and len(v.args) == len(t[2]) \
-            and all(match(a, b, ctx) for a, b in zip(v.args, t[2]))
+        if not (isinstance(v, ExtVal) and last(v.name) == t[1] and not v.kwargs):
+            return False
+        want = list(t[2])
+        while len(want) > len(v.args) and want[-1] == ("py", None):
+            want.pop()              # an optional trailing argument left at its default
+        return len(v.args) == len(want) and all(match(a, b, ctx) for a, b in zip(v.args, want))
     if k == "method":
         if not (isinstance(v, ExtVal) and v.name == "<call>" and v.args and not v.kwargs):
             return False
